@@ -86,7 +86,7 @@ def main(argv=None):
     bl_path = HERE / "baseline" / "obligations.json"
     baseline = json.loads(bl_path.read_text()) if bl_path.exists() else {}
     present = sorted({o["oid"] for o in obligations} | {b["bid"] for b in bounded})
-    if args.update_baseline and not args.only:
+    if args.update_baseline and not args.only and str(core.REPO) == "/repo":
         baseline[f"{prop}.{args.tier}"] = present
         bl_path.write_text(json.dumps(baseline, indent=1, sort_keys=True) + "\n")
     missing = []
@@ -95,7 +95,7 @@ def main(argv=None):
 
     # --- classify -------------------------------------------------------
     violations, known_hits, undecided = [], [], []
-    rdir = HERE / "replays" / prop
+    rdir = (HERE / "replays" / prop) if str(core.REPO) == "/repo" else (HERE / ".scratch" / "replays" / prop)
     for o in obligations:
         if o["status"] == REFUTED:
             hit = findings.match(known, prop, o["oid"], o.get("witness", ""))
@@ -219,7 +219,9 @@ def write_evidence(mod, prop, tier, seed, results, obligations, bounded,
         "violations": len(violations),
     }
     edir = HERE / "evidence"
-    edir.mkdir(exist_ok=True)
+    if str(core.REPO) != "/repo":      # scratch tree (self-test): never overwrite real evidence
+        edir = HERE / ".scratch" / "evidence"
+    edir.mkdir(parents=True, exist_ok=True)
     (edir / f"{prop}.json").write_text(json.dumps(ev, indent=1, default=str) + "\n")
 
 
